@@ -340,6 +340,32 @@ func ruleJSONStringify(c *Ctx, r *R) {
 			r.undecided("str-order:"+ssaFuncName(fn), c.Pos(fn.Pos()), fmt.Sprintf("UNRESOLVED: toJSON lookup found=%v, replacer call found=%v in the stringify walker", toJSONGet != nil, replCall != nil))
 			continue
 		}
+		// §15.12.3 Str step 3 (replacer) before step 4 (a Number / String / Boolean object is replaced by its primitive)
+		var unbox ssa.Instruction
+		for _, b := range fn.Blocks {
+			for _, ins := range b.Instrs {
+				bo, ok := ins.(*ssa.BinOp)
+				if !ok || bo.Op != token.EQL {
+					continue
+				}
+				k, ok := bo.Y.(*ssa.Const)
+				if !ok {
+					continue
+				}
+				str, isStr := constStringVal(k)
+				if !isStr || (str != "Number" && str != "String" && str != "Boolean") {
+					continue
+				}
+				if a := loadAddr(bo.X); a != nil && isFieldAddr(a, "object", "class") && unbox == nil {
+					unbox = bo
+				}
+			}
+		}
+		if unbox == nil {
+			r.undecided("unbox-order:"+ssaFuncName(fn), c.Pos(fn.Pos()), "UNRESOLVED: the stringify walker has no test of the value's class for Number / String / Boolean (Str step 4)")
+		} else {
+			r.check(!reachesInstr(unbox, replCall), "unbox-order:"+ssaFuncName(fn), c.Pos(instrPos(unbox)), "wrapper objects are unboxed after the replacer function has been called", "§15.12.3 Str steps 3-4: a Number / String / Boolean object is replaced by its primitive before the replacer function is called: the replacer is handed the primitive instead of the object, and a wrapper object the replacer returns is serialised as an object (`JSON.stringify({a:1}, function(k, v){ return k === 'a' ? new Number(5) : v })` gives {\"a\":{}} instead of {\"a\":5})")
+		}
 		r.check(!reachesInstr(replCall, toJSONGet), "str-order:"+ssaFuncName(fn), c.Pos(instrPos(replCall)), "toJSON is applied before the replacer function is called", "§15.12.3 Str steps 2-3: the replacer function is called before the value's toJSON method is looked up: the replacer sees the raw object instead of its toJSON result, and toJSON is then applied to whatever the replacer returned")
 	}
 	if pushes == 0 {
@@ -402,7 +428,17 @@ func derivesFromString(v, s ssa.Value, d int) bool {
 }
 
 func gapBounded(fn *ssa.Function, st *ssa.Store) (bool, string) {
-	switch v := st.Val.(type) {
+	return gapValueBounded(fn, st.Val, st, 0)
+}
+
+// gapValueBounded: val (stored or returned at `at` in fn) is a text of at most 10 characters / code units.
+func gapValueBounded(fn *ssa.Function, val ssa.Value, at ssa.Instruction, depth int) (bool, string) {
+	if k, ok := val.(*ssa.Const); ok {
+		if str, isStr := constStringVal(k); isStr && len(str) <= 10 {
+			return true, "a constant of at most 10 characters"
+		}
+	}
+	switch v := val.(type) {
 	case *ssa.Convert:
 		// string(utf16.Decode(units[0:k])) / string(runes[0:k]) with k <= 10
 		inner := v.X
@@ -467,10 +503,27 @@ func gapBounded(fn *ssa.Function, st *ssa.Store) (bool, string) {
 			continue
 		}
 		if call, ok := bo.X.(*ssa.Call); ok {
-			if bi, ok := call.Call.Value.(*ssa.Builtin); ok && bi.Name() == "len" && derivesFromString(call.Call.Args[0], st.Val, 0) {
-				if b.Succs[1].Dominates(st.Block()) || b.Succs[1] == st.Block() {
+			if bi, ok := call.Call.Value.(*ssa.Builtin); ok && bi.Name() == "len" && derivesFromString(call.Call.Args[0], val, 0) {
+				if b.Succs[1].Dominates(at.Block()) || b.Succs[1] == at.Block() {
 					return true, "whole string, stored only when len <= 10"
 				}
+			}
+		}
+	}
+	if call, ok := val.(*ssa.Call); ok && depth < 2 {
+		// computed by a function of the module: every value it returns must be bounded
+		if callee := call.Call.StaticCallee(); callee != nil && len(callee.Blocks) > 0 && callee.Pkg == fn.Pkg && callee.Signature.Results().Len() == 1 {
+			n := 0
+			for _, b := range callee.Blocks {
+				if ret, ok := b.Instrs[len(b.Instrs)-1].(*ssa.Return); ok {
+					n++
+					if ok2, how := gapValueBounded(callee, ret.Results[0], ret, depth+1); !ok2 {
+						return false, how + " (returned by " + callee.Name() + ")"
+					}
+				}
+			}
+			if n > 0 {
+				return true, "every value returned by " + callee.Name() + " is bounded"
 			}
 		}
 	}
